@@ -5,15 +5,24 @@ import PydjinniModel.Props.C03Text
 
 `spanPos ts rest` (the model of `Parser._position`) is computed from the *lengths* of the token list before and
 after a construct.  This file shows what that computes: for `ts = pre ++ rest` it is `tokSpan pre`, the position
-"from the start of the first token of `pre` to the end (`col + len` on the start line) of its last token".
+"from the start of the first token of `pre` to the end (`col + len` on its start line) of its last token".
 
 * `spanPos_eq_tokSpan`      `spanPos (pre ++ rest) rest = tokSpan pre`
-* `dataType_span`           a parsed data type reference satisfies `TySpan t pre` for the consumed prefix `pre`:
-                            its position is `tokSpan pre`, and (recursively) its generic arguments occupy
-                            pairwise disjoint contiguous sub-segments of the tail of `pre`, in order
-* `TySpan.arg_within`, `ArgsSpan.two_args_disjoint`   the flat readings of the nesting
-* `field_span`, `typeDecl_pos`, `typeDecl_span`, `member_span`, `paramL_span`, `typeRefL_span`
-* `dataType_text_span`      the corollary in terms of the characters of the source text
+* `dataType_span`, `dataType_span_first_last`   a parsed data type reference satisfies `TySpan t pre` for the consumed
+                            non-empty prefix `pre`: its position is `tokSpan pre`, and (recursively) its generic arguments
+                            occupy pairwise disjoint contiguous sub-segments of the tail of `pre`, in order, each
+                            preceded by exactly one separator token
+* `TySpan.arg_within`, `ArgsSpan.split`, `ArgsSpan.two_args_disjoint`   the flat readings of the nesting
+* `pl_span` (`typeRefL_span`, `functionL_span`, `paramL_span`, `PsSpan.split`)   the same for function types, signatures
+                            and parameters (every candidate of the list-of-successes parsers)
+* `field_span`, `record_span`, `record_field_within`, `member_span`, `interface_span`, `item_span`, `flagItem_span`,
+  `errCode_span`, `typeDecl_pos`, `typeDecl_span`, `typeDecl_inner`   fields, members, items, error codes and
+                            declarations of all six kinds: exact span (doc comments included), body tiled by the parts
+* `content_span`, `load_span`, `parseFile_span`   namespaces, load directives and whole files: the directives and then
+                            the contents tile the token list exactly
+* `lex_segment_text`, `dataType_text_segment`, `field_text_segment`, `dataType_text_span`   in terms of the characters
+                            of the source text: between the recorded start and end stand exactly the consumed tokens'
+                            texts, separated by the white space that stood between them
 -/
 namespace Pydjinni.Front
 
@@ -1467,6 +1476,31 @@ example : (lex "map<string, list<a.b?>>? ;").bind (fun ts => (dataType 10 ts).ma
     from after the `:` to before the `;` -/
 example : (lex "# doc\nx : list<i32> ;").bind (fun ts => (field 40 ts).map (fun (f, _) => (f.pos, spansT f.ty))) =
     some (⟨1, 0, 2, 15⟩, [("list", ⟨2, 4, 2, 13⟩), ("i32", ⟨2, 9, 2, 12⟩)]) := by
+  decide +kernel
+
+/-- (test helper) positions of a member, of its parameters (each followed by its type) and of its return / property type -/
+def memberSpans : Member → List (String × Pos)
+  | .m x => ("method", x.pos) :: ((x.params.flatMap (fun (p : Param) => ("param", p.pos) :: spansT (paramType p)))
+      ++ (match x.ret with | some r => spansT r | none => []))
+  | .p x => ("property", x.pos) :: spansT x.ty
+
+/-- (test helper) position of a top-level content and of its direct children -/
+def contentSpans : Content → Pos × List Pos
+  | .ns _ _ ch p => (p, ch.map (fun (c : Content) => match c with | .decl d => d.pos | .ns _ _ _ p => p))
+  | .decl d => (d.pos, [])
+
+/-- test: a method with a doc comment: the method spans comment … `;`, each parameter `name : type`, each type its own
+    tokens, nested and in order -/
+example : (lex "# m\nstatic f(a: i32, b: list<i8>) -> bool;").bind (fun ts => (member 60 ts).map (fun (a, _) => memberSpans a)) =
+    some [("method", ⟨1, 0, 2, 38⟩), ("param", ⟨2, 9, 2, 15⟩), ("i32", ⟨2, 12, 2, 15⟩),
+      ("param", ⟨2, 17, 2, 28⟩), ("list", ⟨2, 20, 2, 28⟩), ("i8", ⟨2, 25, 2, 27⟩), ("bool", ⟨2, 33, 2, 37⟩)] := by
+  decide +kernel
+
+/-- test: a whole file: the `@import` directive and its path, a namespace over four lines and the record (with its doc
+    comment) inside it -/
+example : (parseText "@import \"a.djinni\"\nnamespace x {\n  # doc\n  r = record { a: i8; }\n}\n").map
+      (fun f => (f.loads.map (fun l => (l.pos, l.pathPos)), f.contents.map contentSpans)) =
+    some ([(⟨1, 0, 1, 18⟩, ⟨1, 8, 1, 18⟩)], [(⟨2, 0, 5, 1⟩, [⟨3, 2, 4, 23⟩])]) := by
   decide +kernel
 
 #print axioms spanPos_eq_tokSpan
